@@ -304,7 +304,7 @@ def numpy_steps(M, rec, rng, n_nets, draws=3, opts_prob=0.0, on_case=None, regim
             rec.count("networks_with_numpy_valued_parameters")
         rec.seen("shapes", shp)
         rec.seen("net_signatures", D.signature(desc))
-        if any(o.get("user") for o in desc["origins"]) or any(l.get("user_cap") is not None or l.get("user_reorder") for l in desc["links"]):
+        if any(o.get("user") or o.get("user_cap_flow") is not None for o in desc["origins"]) or any(l.get("user_cap") is not None or l.get("user_reorder") for l in desc["links"]):
             rec.count("networks_with_user_defined_element_kinds")
         keep_engine = NE() if rng.random() < 0.5 else None  # one engine object for all steps of this network
         for k in range(draws):
@@ -526,7 +526,7 @@ def symbolic_steps(M, rec, rng, symvals, n_nets, points=3, symtypes=("SX", "MX")
         shape = next(sh)
         shp, desc, built = make_net(M, g, shape, rng)
         rec.seen("shapes_sym", shp)
-        if any(o.get("user") for o in desc["origins"]) or any(l.get("user_cap") is not None or l.get("user_reorder") for l in desc["links"]):
+        if any(o.get("user") or o.get("user_cap_flow") is not None for o in desc["origins"]) or any(l.get("user_cap") is not None or l.get("user_reorder") for l in desc["links"]):
             rec.count("symbolic_networks_with_user_defined_element_kinds")
         for st in symtypes:
             pars = g.pars()
@@ -553,6 +553,51 @@ def symbolic_steps(M, rec, rng, symvals, n_nets, points=3, symtypes=("SX", "MX")
                     pass
                 if on_case:
                     on_case(case, built)
+
+
+def dm_steps(M, rec, rng, symvals, n_nets, before_case=None):
+    """The CasADi engine stepped on plain numbers held as casadi.DM (a numeric run with the symbolic engine):
+    dense vectors, or vectors built as `x = DM(n, 1); x[i] = value` whose empty segments are structural
+    zeros."""
+    import casadi as cs
+
+    NE, CE = drive.engines(M)
+    g = G.NetGen(rng)
+    sh = shapes_cycle()
+    for it in range(n_nets):
+        shp, desc, built = make_net(M, g, next(sh), rng)
+        st = ("SX", "MX")[it % 2]
+        pars = g.pars()
+        regime, vals = g.values(desc, rng.choice(("zero", "mixed", "boundary", "interior")), allow_inf=False)
+        lay = D.var_layout(desc)
+        sparse = it % 3 != 0
+        ic = {}
+        for eid, L in lay.items():
+            d = {}
+            for grp in ("states", "actions", "disturbances"):
+                for name, n in L[grp]:
+                    x = vals[eid][name]
+                    xs = list(x) if isinstance(x, list) else [x]
+                    if sparse:
+                        m = cs.DM(len(xs), 1)
+                        for i_, t_ in enumerate(xs):
+                            if t_ != 0.0:
+                                m[i_] = t_
+                    else:
+                        m = cs.DM(xs)
+                    d[name] = m
+            if d:
+                ic[built.el(eid)] = d
+        symvals.clear()
+        rec.count("casadi_engine_steps_on_DM_numbers")
+        rec.seen("dm_forms", "structurally sparse" if sparse else "dense")
+        case = {"desc": desc, "vals": vals, "pars": pars, "opts": {}, "engine": st, "regime": regime, "numbers_as": "casadi.DM"}
+        if before_case:
+            before_case(case, built)
+        try:
+            drive.do_step(built.net, drive.pick_via(rng, 0.2), rng=rng, init_conditions=ic, engine=CE(st), **drive.step_pars(pars))
+        except Exception:
+            pass
 
 
 def closed_loop(M, rec, rng, n_sims, steps, on_step=None, before_case=None):
